@@ -4,7 +4,9 @@ import (
 	"encoding/json"
 	"fmt"
 	"github.com/Trendyol/go-dcp/couchbase"
+	"github.com/Trendyol/go-dcp/models"
 	"math"
+	"os"
 	"time"
 
 	"github.com/Trendyol/go-dcp/config"
@@ -101,6 +103,7 @@ func init() {
 				{Scenario: "c12_conc", Params: mustJSON(struct{}{}), Bound: b - 1, Shards: 8, Note: "transient end (node 0) and final end (node 1) concurrently with each other and with events on a third vBucket"},
 			}
 			out = append(out, Instance{Scenario: "c12_afterrebalance", Params: mustJSON(AfterRebParams{CloseFault: true}), Bound: 0, Shards: 8, Note: "a close-stream request of the rebalance fails (lost reply / dead connection): the sessions after it obey the stop rule"})
+			out = append(out, Instance{Scenario: "c12_filewider", Params: mustJSON(struct{}{}), Bound: 0, Note: "file metadata whose file holds more vBuckets than are assigned now: count and stop rule follow the assignment"})
 			out = append(out, Instance{Scenario: "c12_afterrebalance", Params: mustJSON(AfterRebParams{ReopenPending: true}), Bound: 0, Shards: 4, Note: "dynamic membership: a re-open retry that sleeps through a whole (immediate) rebalance gives up when it wakes"})
 			out = append(out, Instance{Scenario: "c12_afterrebalance", Params: mustJSON(AfterRebParams{OldServer: true}), Bound: 1, Shards: 8, Note: "server below 5.5.0 (serial close): the end of the last vBucket against the tail of Close(), all single deviations"})
 			out = append(out, Instance{Scenario: "c12_afterrebalance", Params: mustJSON(AfterRebParams{OldServer: true, CloseFault: true}), Bound: 0, Shards: 8, Note: "serial close with a failing close-stream request: ends in the next session are still processed"})
@@ -726,6 +729,67 @@ func init() {
 				}
 			}
 			vrt.SetOutcome(fmt.Sprintf("%d %v %s %v", nreb, order, fc.name, transientFirst))
+		}}
+	}
+}
+
+// c12_filewider: the file metadata backend hands back every vBucket of its file, not only the requested ones.
+// A member that restarts over a file written under a larger assignment (group scaled out) is assigned fewer
+// vBuckets than the file holds: the active-stream count is the number of ASSIGNED vBuckets, it goes down with
+// every final end and the (finite) run stops when the assigned ones have ended.
+func init() {
+	scenarios["c12_filewider"] = func(raw json.RawMessage) *vrt.Scenario {
+		return &vrt.Scenario{Name: "c12_filewider", FreeChoices: true, NoTimerAlt: true, MaxSteps: 400000, Main: func() {
+			resetGlobals()
+			finite := vrt.Choose(2, true, "finite-mode") == 1
+			f, _ := os.CreateTemp("", "c12*.json")
+			fn := f.Name()
+			f.Close()
+			defer os.Remove(fn)
+			o := EnvOpts{Vbs: 4, CheckpointType: "manual", Metadata: "file", FileName: fn, MemberNumber: 1, Total: 2}
+			if finite {
+				o.Mode = config.DcpModeFinite
+			}
+			c := NewCluster(&o)
+			m := map[uint16]*models.CheckpointDocument{}
+			for vb := uint16(0); vb < 4; vb++ {
+				c.Append(vb, marker(1, 2), symbolPacket("M", 1), symbolPacket("M", 2))
+				m[vb] = &models.CheckpointDocument{Checkpoint: &models.CheckpointDocumentCheckpoint{VbUUID: uint64(c.Vb[vb].Failover[0].VbUUID), SeqNo: 1, Snapshot: &models.CheckpointDocumentSnapshot{StartSeqNo: 1, EndSeqNo: 2}}, BucketUUID: "uuid-" + srcBucket}
+			}
+			b, _ := json.Marshal(m)
+			_ = os.WriteFile(fn, b, 0o644)
+			e := NewEnv(c, o)
+			e.Cons.AutoAck = true
+			e.Stream.Open()
+			c.WaitIdle()
+			vrt.Quiesce()
+			desc := fmt.Sprintf("member 1/2 of 4 vBuckets (assigned 0..1) over a checkpoint file that holds 0..3, finite=%v", finite)
+			vrt.SetOutcome(desc)
+			if finite {
+				vrt.Sleep(2 * time.Second)
+				vrt.Quiesce()
+				if got := activeCount(e); got != 0 {
+					vrt.Failf("%s: both assigned vBuckets reached their end, the active stream count is %d", desc, got)
+				}
+				if !vrt.Closed(e.StopCh) {
+					vrt.Failf("%s: both assigned vBuckets reached their end and the client did not stop", desc)
+				}
+				return
+			}
+			if got := activeCount(e); got != 2 {
+				vrt.Failf("%s: the active stream count after the start is %d, want 2", desc, got)
+			}
+			for i, vb := range []uint16{1, 0} {
+				c.EndStream(vb, gocbcore.ErrDCPStreamFilterEmpty)
+				vrt.Sleep(time.Second)
+				vrt.Quiesce()
+				if got := activeCount(e); int(got) != 1-i {
+					vrt.Failf("%s: after %d final end(s) the active stream count is %d, want %d", desc, i+1, got, 1-i)
+				}
+				if stopped := vrt.Closed(e.StopCh); stopped != (i == 1) {
+					vrt.Failf("%s: after %d of 2 assigned vBuckets ended for good: client stop signalled = %v", desc, i+1, stopped)
+				}
+			}
 		}}
 	}
 }
